@@ -278,20 +278,84 @@ class Resolver:
 
     @staticmethod
     def _escape_guarded(loop: ast.For, name: str) -> bool:
-        """Sanitiser idiom: the first statement of the loop body rejects (continue / raise) every value of the loop
-        variable that is absolute or has a '..' part:  if isabs(x) or '..' in Path(x).parts: ...; continue"""
-        if not loop.body or not isinstance(loop.body[0], ast.If):
+        """Sanitiser idiom: inside the loop, every use of the loop variable as a path component runs only for values that are
+        neither absolute nor contain a '..' part.  The rejecting test `isabs(x) or '..' in Path(x).parts` (any equivalent
+        spelling; possibly hoisted into a local) either ends the iteration early (`if T: ...; continue`) or selects the branch
+        (`if not T: <use> else: warn`)."""
+        body = ast.Module(body=loop.body, type_ignores=[])
+        single = {}
+        for a_ in ast.walk(body):
+            if isinstance(a_, ast.Assign) and len(a_.targets) == 1 and isinstance(a_.targets[0], ast.Name):
+                single.setdefault(a_.targets[0].id, []).append(a_.value)
+
+        import copy as _copy
+
+        class _Sub(ast.NodeTransformer):
+            def visit_Name(self, n):
+                if isinstance(n.ctx, ast.Load) and n.id != name and len(single.get(n.id, [])) == 1:
+                    return _copy.deepcopy(single[n.id][0])
+                return n
+
+        def expand(t: ast.AST) -> ast.AST:
+            """locals that are bound once in the loop body are replaced by their value (`subdir = PurePath(item)`)"""
+            t = _copy.deepcopy(t)
+            for _ in range(3):
+                t = _Sub().visit(t)
+            return t
+
+        def is_abs(x: ast.AST) -> bool:
+            u = ast.unparse(x)
+            return bool(re.fullmatch(rf"(os\.path\.isabs\({name}\)|(pathlib\.)?(Pure)?(Posix)?Path\({name}\)\.is_absolute\(\))", u))
+
+        def has_dots(x: ast.AST) -> bool:
+            u = ast.unparse(x)
+            return bool(re.fullmatch(rf"('\.\.'|os\.pardir|os\.path\.pardir) in (pathlib\.)?(Pure)?(Posix)?Path\({name}\)\.parts", u))
+
+        def rejecting(t: ast.AST) -> bool:
+            t = expand(t)
+            return isinstance(t, ast.BoolOp) and isinstance(t.op, ast.Or) and any(is_abs(v) for v in t.values) and \
+                any(has_dots(v) for v in t.values)
+
+        def accepting(t: ast.AST) -> bool:
+            t = expand(t)
+            if isinstance(t, ast.UnaryOp) and isinstance(t.op, ast.Not):
+                return rejecting(t.operand)
+            return isinstance(t, ast.BoolOp) and isinstance(t.op, ast.And) and \
+                any(isinstance(v, ast.UnaryOp) and isinstance(v.op, ast.Not) and is_abs(v.operand) for v in t.values) and \
+                any((isinstance(v, ast.UnaryOp) and isinstance(v.op, ast.Not) and has_dots(v.operand)) or
+                    (isinstance(v, ast.Compare) and isinstance(v.ops[0], ast.NotIn) and has_dots(
+                        ast.Compare(left=v.left, ops=[ast.In()], comparators=v.comparators))) for v in t.values)
+
+        def joins(n: ast.AST) -> bool:
+            return (isinstance(n, ast.BinOp) and isinstance(n.op, ast.Div) and any(isinstance(x, ast.Name) and x.id == name for x in ast.walk(n.right))) or \
+                (isinstance(n, ast.Call) and isinstance(n.func, ast.Attribute) and n.func.attr in ("joinpath", "join") and
+                 any(isinstance(x, ast.Name) and x.id == name for a2 in n.args for x in ast.walk(a2)))
+
+        # (a) early exit: nothing but local bookkeeping (no path is built) precedes `if T: ...; continue`
+        for st in loop.body:
+            if isinstance(st, ast.If) and rejecting(st.test) and st.body and isinstance(st.body[-1], (ast.Continue, ast.Raise, ast.Return)) \
+                    and not st.orelse:
+                return True
+            if isinstance(st, (ast.Assign, ast.AnnAssign)) and not any(joins(n) for n in ast.walk(st)):
+                continue
+            break
+
+        # (b) branch form: path joins with the variable occur only where the test has accepted the value
+        safe_nodes = set()
+        found_branch = False
+        for i in ast.walk(body):
+            if isinstance(i, ast.If):
+                if accepting(i.test):
+                    found_branch = True
+                    for st in i.body:
+                        safe_nodes |= {id(x) for x in ast.walk(st)}
+                elif rejecting(i.test):
+                    found_branch = True
+                    for st in i.orelse:
+                        safe_nodes |= {id(x) for x in ast.walk(st)}
+        if not found_branch:
             return False
-        g = loop.body[0]
-        if not g.body or not isinstance(g.body[-1], (ast.Continue, ast.Raise)) or g.orelse:
-            return False
-        t = g.test
-        if not (isinstance(t, ast.BoolOp) and isinstance(t.op, ast.Or)):
-            return False
-        parts = [ast.unparse(v) for v in t.values]
-        has_abs = any(re.fullmatch(rf"(os\.path\.isabs\({name}\)|(pathlib\.)?(Pure)?Path\({name}\)\.is_absolute\(\))", x) for x in parts)
-        has_dots = any(re.fullmatch(rf"'\.\.' in (pathlib\.)?(Pure)?Path\({name}\)\.parts", x) for x in parts)
-        return has_abs and has_dots
+        return all(id(n) in safe_nodes for n in ast.walk(body) if joins(n))
 
     def _res_subst(self, v, fn, cls, binds, sub: "_Subst") -> Prov:
         b2 = dict(binds)
@@ -425,6 +489,20 @@ class Resolver:
             if c.args and isinstance(c.args[0], ast.Name) and c.args[0].id == fn.name and len(c.args) > 1:
                 cfn, ccls = py.enclosing_function(c), py.enclosing_class(c)
                 it = c.args[1]
+                if isinstance(it, (ast.ListComp, ast.GeneratorExp)) and isinstance(it.elt, ast.Tuple):
+                    # [(*graphs, self.graphdir) for graphs in groups]: an index counted from the end (or in front of any
+                    # starred element) names one element of the display
+                    elts = it.elt.elts
+                    star = [i for i, x in enumerate(elts) if isinstance(x, ast.Starred)]
+                    pick = None
+                    if idx < 0 and (not star or len(elts) + idx > star[-1]):
+                        pick = elts[idx]
+                    elif idx >= 0 and (not star or idx < star[0]):
+                        pick = elts[idx]
+                    if pick is None:
+                        return Prov("UNSAFE", why="process_map element index falls into a starred part of the tuple")
+                    results.append(self.resolve(pick, cfn, ccls, {}))
+                    continue
                 if not isinstance(it, ast.Name):
                     return Prov("UNSAFE", why="process_map iterable is not a local list")
                 # elements: tuples appended/extended to the list
